@@ -1025,6 +1025,140 @@ pub fn corr(run: &mut Run) {
             }
         }
     }
+    // ---- D: two joins of the same two tables in ONE graph, on different key columns of the first table
+    two_joins(run);
     // ---- E: malformed
     malformed(run);
+}
+
+/// columns of a table value by header name
+fn columns_by_name(v: &Value, t: &Type) -> Option<Vec<(String, Vec<u128>)>> {
+    let cols = v.to_vector().ok()?;
+    if let Type::NamedTuple(hs) = t {
+        if cols.len() != hs.len() {
+            return None;
+        }
+        let mut out: Vec<(String, Vec<u128>)> = vec![];
+        for (i, (h, ct)) in hs.iter().enumerate() {
+            out.push((h.clone(), cols[i].to_flattened_array_u128((**ct).clone()).ok()?));
+        }
+        out.sort();
+        Some(out)
+    } else {
+        None
+    }
+}
+
+/// D: `X.join(Y, a↔id)` and `X.join(Y, b↔id)` in one graph (the two compiled joins differ only in the key
+/// column of the first table: they must not share one instantiated protocol); compiled vs plaintext,
+/// table by table, column by column
+fn two_joins(run: &mut Run) {
+    use ciphercore_base::graphs::util::simple_context;
+    let mut rng = run.rng("two-joins");
+    let n = run.tier.scale(3, 16);
+    for it in 0..n {
+        let n0 = 3 + rng.below(3);
+        let n1 = 3 + rng.below(3);
+        let jt = if it % 2 == 0 { JoinType::Inner } else { JoinType::Left };
+        let uniq = |rng: &mut Rng, n: u64| -> Vec<u64> {
+            let mut pool: Vec<u64> = (1..=9).collect();
+            rng.shuffle(&mut pool);
+            pool[..n as usize].to_vec()
+        };
+        let tx = named_tuple_type(vec![
+            (NULL_HEADER.to_owned(), array_type(vec![n0], BIT)),
+            ("a".to_owned(), array_type(vec![n0], INT32)),
+            ("b".to_owned(), array_type(vec![n0], INT32)),
+            ("p".to_owned(), array_type(vec![n0], INT64)),
+        ]);
+        let ty = named_tuple_type(vec![
+            (NULL_HEADER.to_owned(), array_type(vec![n1], BIT)),
+            ("id".to_owned(), array_type(vec![n1], INT32)),
+            ("q".to_owned(), array_type(vec![n1], UINT8)),
+        ]);
+        let nulls = |rng: &mut Rng, n: u64| -> Vec<u64> { (0..n).map(|_| if rng.chance(1, 5) { 0 } else { 1 }).collect() };
+        let (ax, bx, idy) = (uniq(&mut rng, n0), uniq(&mut rng, n0), uniq(&mut rng, n1));
+        let vx = Value::from_vector(vec![
+            Value::from_flattened_array(&nulls(&mut rng, n0), BIT).unwrap(),
+            Value::from_flattened_array(&ax, INT32).unwrap(),
+            Value::from_flattened_array(&bx, INT32).unwrap(),
+            Value::from_flattened_array(&(0..n0).map(|i| 100 + i).collect::<Vec<u64>>(), INT64).unwrap(),
+        ]);
+        let vy = Value::from_vector(vec![
+            Value::from_flattened_array(&nulls(&mut rng, n1), BIT).unwrap(),
+            Value::from_flattened_array(&idy, INT32).unwrap(),
+            Value::from_flattened_array(&(0..n1).map(|i| 30 + i).collect::<Vec<u64>>(), UINT8).unwrap(),
+        ]);
+        let (tx2, ty2) = (tx.clone(), ty.clone());
+        let ctx = match catch(move || {
+            simple_context(|g| {
+                let x = g.input(tx2.clone())?;
+                let y = g.input(ty2.clone())?;
+                let t = x.join(y.clone(), jt, HashMap::from([("a".to_owned(), "id".to_owned())]))?;
+                let u = x.join(y, jt, HashMap::from([("b".to_owned(), "id".to_owned())]))?;
+                g.create_tuple(vec![t, u])
+            })
+        }) {
+            Ok(Ok(c)) => c,
+            _ => continue,
+        };
+        let inputs = vec![vx.clone(), vy.clone()];
+        let descr = format!("two joins {} in one graph: X(null={:?}, a={:?}, b={:?}, p=100..) Y(null={:?}, id={:?}, q=30..)", jt_name(jt), vx.to_vector().ok().and_then(|c| c[0].to_flattened_array_u64(array_type(vec![n0], BIT)).ok()), ax, bx, vy.to_vector().ok().and_then(|c| c[0].to_flattened_array_u64(array_type(vec![n1], BIT)).ok()), idy);
+        let expected = match catch(|| plain_eval(&ctx, inputs.clone(), [7; 16])) {
+            Ok(Ok(v)) => v,
+            _ => continue,
+        };
+        let src_t = ctx.get_main_graph().and_then(|g| g.get_output_node()).and_then(|n| n.get_type()).unwrap();
+        let ins = vec![IOStatus::Party(rng.below(3)), IOStatus::Party(rng.below(3))];
+        let outs = vec![IOStatus::Party(rng.below(3))];
+        let cc = match catch(|| compile(&ctx, &ins, &outs, 0)) {
+            Ok(Ok(c)) => c,
+            Ok(Err(e)) => {
+                fail(run, "C19:compile-rejected:two-joins", format!("{} : {}", descr, trunc(&format!("{}", e), 200)));
+                continue;
+            }
+            Err(p) => {
+                fail(run, "C19:panic:compile", format!("{} : {}", descr, p));
+                continue;
+            }
+        };
+        run.oracle_case(&descr, true);
+        run.count("two-joins:compiled");
+        let cc_t = cc.get_main_graph().and_then(|g| g.get_output_node()).and_then(|n| n.get_type()).unwrap();
+        let seed = rng.seed16();
+        let got = catch(|| -> Result<Value> {
+            let mut prng = PRNG::new(Some(seed))?;
+            let gin = global_inputs(&ins, &[tx.clone(), ty.clone()], &inputs, &mut prng)?;
+            let vals = global_run(&cc, gin, seed)?;
+            let oid = cc.get_main_graph()?.get_output_node()?.get_id() as usize;
+            Ok(vals[oid].clone())
+        });
+        let got = match got {
+            Ok(Ok(v)) => v,
+            Ok(Err(e)) => {
+                fail(run, "C19:compiled-error:two-joins", format!("{} : {}", descr, trunc(&format!("{}", e), 200)));
+                continue;
+            }
+            Err(p) => {
+                fail(run, "C19:panic:compiled", format!("{} : {}", descr, p));
+                continue;
+            }
+        };
+        let (st, ct) = match (&src_t, &cc_t) {
+            (Type::Tuple(a), Type::Tuple(b)) if a.len() == 2 && b.len() == 2 => (a.clone(), b.clone()),
+            _ => continue,
+        };
+        let (ev, gv) = match (expected.to_vector(), got.to_vector()) {
+            (Ok(a), Ok(b)) if a.len() == 2 && b.len() == 2 => (a, b),
+            _ => continue,
+        };
+        for k in 0..2 {
+            let e = columns_by_name(&ev[k], &st[k]);
+            let g = columns_by_name(&gv[k], &ct[k]);
+            if e.is_none() || e != g {
+                fail(run, "C19:compiled-differs:two-joins", format!("{} : table {} (key column {}) of the compiled graph is {:?}, the plaintext join gives {:?}", descr, k, if k == 0 { "a" } else { "b" }, g, e));
+                break;
+            }
+        }
+    }
 }
